@@ -20,11 +20,13 @@ const C07_MAX_ABS_RESIDUAL: i32 = 1 << 29;
 /// zero, within [-150, 0] on (0, 1] (log2 of the smallest subnormal is -149), within [0, 128] on
 /// [1, f32::MAX], +inf at +inf.
 fn libm_log2(x: f32) -> f32 {
+    // (definite results are returned as constants so that concrete iterations constant-fold)
+    if x == 0.0 {
+        return f32::NEG_INFINITY;
+    }
     let r: f32 = kani::any();
     if x.is_nan() || x < 0.0 {
         kani::assume(r.is_nan());
-    } else if x == 0.0 {
-        kani::assume(r == f32::NEG_INFINITY);
     } else if x <= 1.0 {
         kani::assume(-150.0 <= r && r <= 0.0);
     } else if x == f32::INFINITY {
@@ -36,43 +38,58 @@ fn libm_log2(x: f32) -> f32 {
 }
 
 /// ASSUMED contract of `f32::mul_add` (IEEE-754 fusedMultiplyAdd): NaN if an operand is NaN or
-/// the product is 0 * inf; for finite operands the magnitude of the (correctly rounded) result is
-/// at most |a||b| + |c| up to rounding.  `m` below is that bound evaluated in f32 (two roundings,
-/// relative error < 2^-22), hence the slack factor; if `m` overflows nothing is promised.
+/// the product is 0 * inf; for finite operands |fma(a, b, c)| <= round(|a||b| + |c|), stated here
+/// for two boxes of operands with constant bounds (no float arithmetic in the contract, which
+/// keeps the SAT instance small): 2^33 * 150 + 150 < 2^41 and 2^49 * 150 + 150 < 2^57.
+/// Outside the boxes nothing is promised (any f32, including inf and NaN).
 fn ieee_mul_add(a: f32, b: f32, c: f32) -> f32 {
-    let r: f32 = kani::any();
+    const P33: f32 = 8_589_934_592.0;
+    const P41: f32 = 2_199_023_255_552.0;
+    const P49: f32 = 562_949_953_421_312.0;
+    const P57: f32 = 144_115_188_075_855_872.0;
     if a.is_nan()
         || b.is_nan()
         || c.is_nan()
         || (a == 0.0 && b.is_infinite())
         || (a.is_infinite() && b == 0.0)
     {
-        kani::assume(r.is_nan());
-    } else if a.is_finite() && b.is_finite() && c.is_finite() {
-        let m = a.abs() * b.abs() + c.abs();
-        if m.is_finite() {
-            kani::assume(r.abs() <= m * 1.0001 + 1.0e-30);
+        // some NaN (the code under test never looks at NaN payloads)
+        return f32::NAN;
+    }
+    let r: f32 = kani::any();
+    if b.abs() <= 150.0 && c.abs() <= 150.0 {
+        if a.abs() <= P33 {
+            kani::assume(r.abs() <= P41);
+        } else if a.abs() <= P49 {
+            kani::assume(r.abs() <= P57);
         }
     }
     r
 }
 
-/// Callee contract of `find_sum_abs_f32`: for data with |x| <= 2^29 the sum of absolute values,
-/// accumulated in f32, is finite, lies in [0, len * 2^29], and is either exactly zero or at least
-/// one (every addend is zero or an integer >= 1 and f32 addition of non-negative numbers is
-/// monotone).  Proved for len 0..=4 by `c07_find_sum_abs_f32_contract`.
+/// Largest slice the reduction's contract is proved for, and the resulting bound of the sum.
+const C07_SUM_MAX_LEN: usize = 4;
+const C07_SUM_BOUND: f32 = 2_147_483_648.0; // 4 * 2^29
+
+/// Callee contract of `find_sum_abs_f32` on slices of at most 4 residuals with |x| <= 2^29: the sum
+/// of absolute values, accumulated in f32, is exactly 0 for the empty slice, otherwise finite, in
+/// [0, 4 * 2^29], and either exactly zero or at least one (every addend is zero or an integer >= 1
+/// and f32 addition of non-negative numbers is monotone).  Proved by `c07_find_sum_abs_f32_contract`.
 fn contract_find_sum_abs_f32<const N: usize>(data: &[i32]) -> f32
 where
     simd::LaneCount<N>: simd::SupportedLaneCount,
 {
-    // precondition |x| <= 2^29: the callers below bound the WHOLE array and only pass sub-slices of
-    // it; spot-checked here at both ends (a loop over a symbolic-length slice is what the stub avoids).
-    if !data.is_empty() {
-        assert!(data[0].unsigned_abs() <= C07_MAX_ABS_RESIDUAL as u32);
-        assert!(data[data.len() - 1].unsigned_abs() <= C07_MAX_ABS_RESIDUAL as u32);
+    assert!(data.len() <= C07_SUM_MAX_LEN);
+    if data.is_empty() {
+        return 0.0;
     }
+    // precondition |x| <= 2^29: the caller below bounds the WHOLE array and only passes sub-slices
+    // of it; spot-checked here at both ends (a loop over a symbolic-length slice is exactly what
+    // this stub avoids).
+    assert!(data[0].unsigned_abs() <= C07_MAX_ABS_RESIDUAL as u32);
+    assert!(data[data.len() - 1].unsigned_abs() <= C07_MAX_ABS_RESIDUAL as u32);
     let r: f32 = kani::any();
-    kani::assume(0.0 <= r && r <= data.len() as f32 * C07_MAX_ABS_RESIDUAL as f32);
+    kani::assume(0.0 <= r && r <= C07_SUM_BOUND);
     kani::assume(r == 0.0 || r >= 1.0);
     r
 }
@@ -92,44 +109,89 @@ fn c07_find_sum_abs_f32_contract() {
     let mut len = 0;
     while len <= 4 {
         let r = find_sum_abs_f32::<16>(&data[..len]);
-        assert!(0.0 <= r && r <= len as f32 * C07_MAX_ABS_RESIDUAL as f32);
+        assert!(0.0 <= r && r <= C07_SUM_BOUND);
         assert!(r == 0.0 || r >= 1.0);
+        assert!(len != 0 || r == 0.0);
         len += 1;
     }
     kani::cover!(data[0] == -C07_MAX_ABS_RESIDUAL && data[3] == 1);
 }
 
 /// `estimate_entropy` returns normally (no division by zero, no slice out of bounds, no
-/// arithmetic overflow) for every accepted partition count.
+/// arithmetic overflow) for the given partition count, 4 residuals, every warm-up length.
 ///
 /// Preconditions and why:
-///  * `1 <= partitions <= 64`: exactly what `config::OrderSel::verify` accepts (unit
-///    config::verif::c07_order_sel_exact), and what reaches this function through
+///  * the callers below pass `1 <= partitions <= 64`: exactly what `config::OrderSel::verify`
+///    accepts (unit config::verif::c07_order_sel_exact), and what reaches this function through
 ///    `SubFrameCoding::verify -> Fixed::verify -> OrderSel::verify` (units c07_subframe_coding_exact,
 ///    c07_fixed_exact);
 ///  * `warmup_len <= errors.len()`: the only caller passes the predictor order with an error signal
 ///    of block length (`fixed_lpc`: order <= 4 < 32 <= block size);
 ///  * `|e| <= 2^29`: see `C07_MAX_ABS_RESIDUAL` (enters only through the reduction's contract).
-//@ unit props=C07 tier=quick kind=bounded timeout=300 funcs="coding::estimate_entropy" bound="errors.len() == 4; partitions 1..=64 complete (60 of them exercise the empty trailing partitions); warmup_len 0..=len complete" stubs="arrayutils::find_sum_abs_f32 -> contract_find_sum_abs_f32 (c07_find_sum_abs_f32_contract); f32::log2 -> libm_log2 (ASSUMED libm range contract); f32::mul_add -> ieee_mul_add (ASSUMED IEEE-754 fma contract)"
-#[kani::proof]
-#[kani::unwind(66)]
-#[kani::stub(find_sum_abs_f32, contract_find_sum_abs_f32)]
-#[kani::stub(f32::log2, libm_log2)]
-#[kani::stub(f32::mul_add, ieee_mul_add)]
-fn c07_estimate_entropy_no_panic_n4() {
+fn estimate_entropy_returns(partitions: usize, warmup_len: usize) -> usize {
     let errors: [i32; 4] = kani::any();
     let mut i = 0;
     while i < 4 {
         kani::assume(-C07_MAX_ABS_RESIDUAL <= errors[i] && errors[i] <= C07_MAX_ABS_RESIDUAL);
         i += 1;
     }
-    let partitions: usize = kani::any();
-    kani::assume(1 <= partitions && partitions <= 64);
+    assert!(warmup_len <= 4);
+    estimate_entropy(&errors, warmup_len, partitions)
+}
+
+fn any_warmup_len() -> usize {
     let warmup_len: usize = kani::any();
     kani::assume(warmup_len <= 4);
-    let _bits = estimate_entropy(&errors, warmup_len, partitions);
+    warmup_len
+}
+
+/// Every partition count 1..=8 (symbolic): covers all four shapes a block of 4 residuals can be
+/// cut into (1x4, 2x2, 2+2+0, 4x1 followed by 0..=4 empty partitions).
+//@ unit props=C07 tier=quick kind=bounded timeout=300 funcs="coding::estimate_entropy" bound="errors.len() == 4 (|e| <= 2^29); partitions 1..=8 complete; warmup_len 0..=4 complete" stubs="arrayutils::find_sum_abs_f32 -> contract_find_sum_abs_f32 (c07_find_sum_abs_f32_contract); f32::log2 -> libm_log2 (ASSUMED libm range contract); f32::mul_add -> ieee_mul_add (ASSUMED IEEE-754 fma contract)"
+#[kani::proof]
+#[kani::unwind(10)]
+#[kani::stub(find_sum_abs_f32, contract_find_sum_abs_f32)]
+#[kani::stub(f32::log2, libm_log2)]
+#[kani::stub(f32::mul_add, ieee_mul_add)]
+fn c07_estimate_entropy_no_panic_p1to8() {
+    let partitions: usize = kani::any();
+    kani::assume(1 <= partitions && partitions <= 8);
+    let _bits = estimate_entropy_returns(partitions, any_warmup_len());
     kani::cover!(partitions == 1);
-    kani::cover!(partitions == 3 && warmup_len == 2);
-    kani::cover!(partitions == 64 && warmup_len == 4);
-    kani::cover!(partitions > 4 && warmup_len == 0 && _bits > 0);
+    kani::cover!(partitions == 3);
+    kani::cover!(partitions == 8);
+}
+
+/// The maximum accepted partition count 64, concrete per call together with the warm-up length
+/// (the 60 trailing empty partitions then simplify); the full range is the thorough-tier unit.
+//@ unit props=C07 tier=quick kind=bounded timeout=300 funcs="coding::estimate_entropy" bound="errors.len() == 4 (|e| <= 2^29); partitions == 64; warmup_len 0..=4 (each concrete)" stubs="arrayutils::find_sum_abs_f32 -> contract_find_sum_abs_f32 (c07_find_sum_abs_f32_contract); f32::log2 -> libm_log2 (ASSUMED libm range contract); f32::mul_add -> ieee_mul_add (ASSUMED IEEE-754 fma contract)"
+#[kani::proof]
+#[kani::unwind(66)]
+#[kani::stub(find_sum_abs_f32, contract_find_sum_abs_f32)]
+#[kani::stub(f32::log2, libm_log2)]
+#[kani::stub(f32::mul_add, ieee_mul_add)]
+fn c07_estimate_entropy_no_panic_upper() {
+    let mut w = 0;
+    while w <= 4 {
+        let _a = estimate_entropy_returns(64, w);
+        w += 1;
+    }
+    kani::cover!(true);
+}
+
+/// The whole accepted range 1..=64 with a symbolic partition count (64 unrolled float pipelines,
+/// a 2.4M-variable SAT instance: thorough tier only).
+//@ unit props=C07 tier=thorough kind=bounded timeout=1500 funcs="coding::estimate_entropy" bound="errors.len() == 4 (|e| <= 2^29); partitions 1..=64 complete; warmup_len 0..=4 complete" stubs="arrayutils::find_sum_abs_f32 -> contract_find_sum_abs_f32 (c07_find_sum_abs_f32_contract); f32::log2 -> libm_log2 (ASSUMED libm range contract); f32::mul_add -> ieee_mul_add (ASSUMED IEEE-754 fma contract)"
+#[kani::proof]
+#[kani::unwind(66)]
+#[kani::stub(find_sum_abs_f32, contract_find_sum_abs_f32)]
+#[kani::stub(f32::log2, libm_log2)]
+#[kani::stub(f32::mul_add, ieee_mul_add)]
+fn c07_estimate_entropy_no_panic_n4() {
+    let partitions: usize = kani::any();
+    kani::assume(1 <= partitions && partitions <= 64);
+    let _bits = estimate_entropy_returns(partitions, any_warmup_len());
+    // (each cover is one more SAT call on the big instance: keep them few and integer-only)
+    kani::cover!(partitions == 64);
+    kani::cover!(partitions == 3);
 }
